@@ -339,6 +339,9 @@ pub fn lookup(name: &str) -> Option<OpFn> {
             // every q: the shortcut formula
             let mut r = diff(q * v, v + q.v.cross(q.v.cross(v) + v * q.s) * two);
             r.extend(diff(q.rotate_vector(v), q * v));
+            // every rotation: rotate_point(p) = rotate_vector(p - origin), for any q
+            r.extend(diff(q.rotate_point(Point3::from_vec(v)).to_vec(), q.rotate_vector(Point3::from_vec(v) - Point3::origin())));
+            r.extend(diff(q.rotate_point(Point3::from_vec(v)).to_vec(), q * v));
             if is0(&[q.magnitude2() - X::int(1)]) {
                 // unit q: sandwich product, length
                 let s = q * Quaternion::from_sv(X::int(0), v) * q.conjugate();
@@ -789,6 +792,58 @@ pub fn lookup(name: &str) -> Option<OpFn> {
             r.extend(diff(tv(Matrix3::from_nonuniform_scale(x, y), v), Vector2::new(v.x * x, v.y * y)));
             ok(r)
         },
+        // C01: the action of a matrix used as a transform is the matrix-vector product with homogeneous weight 0 (vectors) / 1 (points)
+        "o.m.action" => |a| {
+            let (m4, m3, p3, v3, p2, v2) = (a.m4(), a.m3(), a.p3(), a.v3(), a.p2(), a.v2());
+            type T3 = Matrix3<X>;
+            let mut r = diff(m4.transform_vector(v3), (m4 * v3.extend(X::int(0))).truncate());
+            r.extend(diff(m4.transform_point(p3), Point3::from_homogeneous(m4 * p3.to_homogeneous())));
+            r.extend(diff(<T3 as Transform<Point2<X>>>::transform_vector(&m3, v2), (m3 * v2.extend(X::int(0))).truncate()));
+            r.extend(diff(<T3 as Transform<Point2<X>>>::transform_point(&m3, p2).to_vec(), (m3 * p2.to_vec().extend(X::int(1))).truncate()));
+            r.extend(diff(<T3 as Transform<Point3<X>>>::transform_vector(&m3, v3), m3 * v3));
+            r.extend(diff(<T3 as Transform<Point3<X>>>::transform_point(&m3, p3).to_vec(), m3 * p3.to_vec()));
+            // sum over c of column c scaled by v[c]
+            r.extend(diff(m3 * v3, m3.x * v3.x + m3.y * v3.y + m3.z * v3.z));
+            ok(r)
+        },
+        // C02 / C08: inverse_transform() of a matrix used as a transform is invert(), for every matrix (not only affine ones)
+        "o.m4.inverse_transform" => |a| {
+            let (m, p, v) = (a.m4(), a.p3(), a.v3());
+            let mut r = vec![];
+            match (m.inverse_transform(), m.invert()) {
+                (Some(i), Some(j)) => {
+                    r.extend(diff(i, j));
+                    r.extend(diff(i * m, Matrix4::identity()));
+                    r.extend(diff(m * i, Matrix4::identity()));
+                    if is0(&[m.determinant()]) { r.push(X::int(1)); }
+                    match m.inverse_transform_vector(v) { Some(w) => r.extend(diff(w, j.transform_vector(v))), None => r.push(X::int(1)) }
+                    let _ = p;
+                }
+                (None, None) => { r.push(m.determinant()); if m.inverse_transform_vector(v).is_some() { r.push(X::int(1)); } }
+                _ => r.push(X::int(1)),
+            }
+            ok(r)
+        },
+        "o.m3.inverse_transform" => |a| {
+            let (m, v) = (a.m3(), a.v3());
+            type T3 = Matrix3<X>;
+            let mut r = vec![];
+            let i3 = <T3 as Transform<Point3<X>>>::inverse_transform(&m);
+            let i2 = <T3 as Transform<Point2<X>>>::inverse_transform(&m);
+            match (i3, i2, m.invert()) {
+                (Some(i), Some(k), Some(j)) => {
+                    r.extend(diff(i, j));
+                    r.extend(diff(k, j));
+                    r.extend(diff(i * m, Matrix3::identity()));
+                    r.extend(diff(m * i, Matrix3::identity()));
+                    if is0(&[m.determinant()]) { r.push(X::int(1)); }
+                    match <T3 as Transform<Point3<X>>>::inverse_transform_vector(&m, v) { Some(w) => r.extend(diff(w, j * v)), None => r.push(X::int(1)) }
+                }
+                (None, None, None) => r.push(m.determinant()),
+                _ => r.push(X::int(1)),
+            }
+            ok(r)
+        },
         "o.m.embed" => |a| {
             let (m2, n2, m3, n3) = (a.m2(), a.m2(), a.m3(), a.m3());
             let e23 = Matrix3::from(m2);
@@ -891,7 +946,7 @@ pub fn names() -> Vec<String> {
     let mut v: Vec<String> = ["o.v3.lagrange", "o.v3.cross_cross", "o.v3.cross_orth", "o.v.dot_bilinear",
         "o.m4.constructors", "o.m3.constructors", "o.m.embed", "o.p3.homogeneous",
         "o.q.algebra", "o.q.invert", "o.q.rotate", "o.q.compose", "o.q.same_rotation", "o.q.roundtrip",
-        "o.v1.metric", "o.v2.metric", "o.v3.metric", "o.v4.metric", "o.q.metric", "o.arc.special", "o.lerp", "o.nlerp.exact", "o.look.rigid", "o.look.2d", "o.euler.product", "o.rot.axis_angle", "o.rad.modular", "o.deg.modular", "o.angle.convert", "o.proj.ortho", "o.proj.frustum", "o.proj.perspective", "o.proj.planar", "o.dq.matrix", "o.db2.matrix", "o.m4.transform", "o.m3.transform", "o.m3.transform2", "o.proj.planar_focal",
+        "o.v1.metric", "o.v2.metric", "o.v3.metric", "o.v4.metric", "o.q.metric", "o.arc.special", "o.lerp", "o.nlerp.exact", "o.look.rigid", "o.look.2d", "o.euler.product", "o.rot.axis_angle", "o.rad.modular", "o.deg.modular", "o.angle.convert", "o.proj.ortho", "o.proj.frustum", "o.proj.perspective", "o.proj.planar", "o.dq.matrix", "o.db2.matrix", "o.m4.transform", "o.m3.transform", "o.m3.transform2", "o.proj.planar_focal", "o.m.action", "o.m4.inverse_transform", "o.m3.inverse_transform",
         "o.dq.laws", "o.dq.inverse", "o.db3.laws", "o.db3.inverse", "o.db2.laws", "o.db2.inverse"]
         .iter()
         .map(|s| s.to_string())
